@@ -269,3 +269,176 @@ Example C08_example_append :
   | _ => False
   end.
 Proof. vm_compute. reflexivity. Qed.
+
+(* ==== (b) continued: no response with a gap =================================================
+   Frames of a call the relay has already failed / entombed.  Relayer.Receive and
+   Relayer.handleNonCallReq guard forwarding with `item.tomb || (finished && !stopped)`;
+   failRelayItem (send queue full, frame dropped) stops the item's timer BEFORE it entombs the
+   item, so Stop() answers true again later: only the tomb test keeps the frame that finishes
+   the call from being forwarded after frames of the response were dropped.
+   Models: Model/RelayItems.v (interleaving model of relay.go's bookkeeping: reader goroutines,
+   relay timers, send-queue attempts with/without room; shared with C09/C10), Model/RelayFwd.v
+   (above).  Names of the second model are qualified. *)
+From Verif Require Gen.GenRelayGate Model.RelayItems Model.RelayGap Model.RelayCalm
+  Proofs.RelayGapP Proofs.RelayGateFwdP Proofs.RelayWireP.
+
+(* the two guards, regenerated from relay.go on every run (every statement between the item
+   lookup and the first statement that reports or enqueues): 0 = item not found, 1 = the frame is
+   swallowed, 2 = it is forwarded.  A tombstone swallows whatever Stop() reports. *)
+Theorem C08_gate_generated : forall ok tomb finished stopped,
+  GenRelayGate.relayReceiveGate ok tomb finished stopped = (if negb ok then 0 else if tomb || (finished && negb stopped) then 1 else 2) /\
+  GenRelayGate.relayNonCallGate ok tomb finished stopped = (if negb ok then 0 else if tomb || (finished && negb stopped) then 1 else 2).
+Proof. exact RelayGapP.gates_spec. Qed.
+
+(* ... and they ARE the decisions of the interleaving model: handleNonCallReq after its lookup
+   (INcChk) and Receive after its lookup (IRcvChk), rewritten with the generated functions *)
+Theorem C08_gate_model : forall cf st room,
+  (forall k f ft own g, RelayItems.exec cf st (RelayItems.INcChk k f ft own g) room = RelayGapP.ncchk_generated st k f ft own g) /\
+  (forall r rk g, RelayItems.exec cf st (RelayItems.IRcvChk r rk g) room = RelayGapP.rcvchk_generated st r rk g).
+Proof. exact RelayGapP.gates_model. Qed.
+
+(* ... and of the frame-level model used by the theorems above (receive / handle_other; at its
+   granularity Stop() succeeds on every live item, and for a tombstone its answer is irrelevant) *)
+Theorem C08_gate_model_fwd :
+  (forall st d h p ft,
+     receive st d h p ft =
+     let outb := negb (ft =? c_requestFrame) in
+     let finished := finishesCall (fh_type h) (flags_of p) in
+     let o := get_items st outb d (fh_id h) in
+     let gate := GenRelayGate.relayReceiveGate (RelayGateFwdP.fwd_found o) (RelayGateFwdP.fwd_tomb o) finished true in
+     if gate =? 0 then (false, [], st)
+     else if gate =? 1 then (true, [], st)
+     else (true, [OFrame d h p], if finished then set_item st outb d (fh_id h) None else st)) /\
+  (forall st c h p ft, frameTypeFor (fh_type h) = Some ft ->
+     let o := get_items st (ft =? c_requestFrame) c (fh_id h) in
+     let gate := GenRelayGate.relayNonCallGate (RelayGateFwdP.fwd_found o) (RelayGateFwdP.fwd_tomb o) (finishesCall (fh_type h) (flags_of p)) true in
+     (gate = 0 \/ gate = 1 -> handle_other st c h p = Some ([], st)) /\
+     (gate = 2 -> exists it, o = Some it /\ it_tomb it = false)) /\
+  (forall finished stopped, GenRelayGate.relayReceiveGate true true finished stopped = 1 /\
+                            GenRelayGate.relayNonCallGate true true finished stopped = 1).
+Proof. exact RelayGateFwdP.fwd_gates_model. Qed.
+
+(* failRelayItem, regenerated (everything after its lookup; result 0 = nothing happens, else
+   1 + [1: error frame] + [2: call.Failed] + [4: call.End] + [8: decrementPending]; the Entomb
+   statement binds the marker the result depends on): the item is entombed exactly when it was
+   found and its timer could be stopped, and these are the model's IFailGet / IEntomb steps;
+   after Entomb the item is a tombstone or gone *)
+Theorem C08_fail_generated : forall cf st t reason room,
+  (forall found stopped entomb_ok orig source_slow,
+     GenRelayGate.relayFailItem found stopped entomb_ok orig source_slow =
+     if found && stopped && entomb_ok then 9 + (if orig then 6 + (if source_slow then 0 else 1) else 0) else 0) /\
+  RelayItems.exec cf st (RelayItems.IFailGet t reason) room =
+    (let '(st', g) := RelayItems.items_get st t true in
+     let found := match g with Some _ => true | None => false end in
+     let stopped := match g with Some (_, s) => s | None => false end in
+     (st', if GenRelayGate.relayFailItem found stopped true false false =? 0 then []
+           else [RelayItems.IEntomb t (RelayItems.FromFail reason)])) /\
+  RelayItems.exec cf st (RelayItems.IEntomb t (RelayItems.FromFail reason)) room =
+    (let '(st', g) := RelayItems.items_entomb cf st t in
+     (st', match g with
+           | Some (it, ok) =>
+               RelayGapP.fail_actions (GenRelayGate.relayFailItem true true ok (RelayItems.it_orig it) (reason =? RelayItems.reason_source_slow))
+                            (RelayItems.key_conn t) (RelayItems.key_id t) (RelayItems.it_call it) reason
+           | None => []
+           end)) /\
+  (forall st' g it, RelayItems.items_entomb cf st t = (st', g) ->
+     RelayItems.lookup RelayItems.key_eqb t (RelayItems.items st') = Some it -> RelayItems.it_tomb it = true).
+Proof. exact RelayGapP.fail_model. Qed.
+
+(* NO GAP.  For every run of the interleaving model from the initial state -- any number of
+   connections and calls, any interleaving of the reader goroutines (one atomic action at a
+   time), relay timers firing at any moment, tomb collections, connection close/loss, send
+   queues full or not at every attempt; request ids not re-used by a caller -- :
+   [gap_free false cf init [] ls]: walking along the run and collecting in D the destination-side item
+   key of every call of which a RESPONSE-direction frame was dropped at the caller's send queue
+   (IRcvEnq without room), no later step puts a frame that FINISHES such a call (last call res /
+   call res continue, or error frame) on the caller's send queue.  So a caller can never receive
+   a response that ends normally but lacks frames in the middle. *)
+Theorem C08_no_gap : forall cf ls st,
+  RelayItems.run_fresh cf RelayItems.init ls = Some st -> RelayGapP.gap_free false cf RelayItems.init [] ls.
+Proof. exact RelayGapP.relay_no_gap. Qed.
+
+(* the same, read off the sequence of send-queue attempts of the run ([enq_trace]: per label
+   the Receive it completes, if any, with room or not): attempt i drops a response frame, a
+   later attempt j enqueues a response-direction frame read for the same destination-side item:
+   that frame does not finish the call *)
+Theorem C08_no_gap_trace : forall cf ls st, RelayItems.run_fresh cf RelayItems.init ls = Some st ->
+  forall i j r1 r2, (i < j)%nat ->
+    nth_error (RelayGapP.enq_trace cf RelayItems.init ls) i = Some (Some (r1, false)) -> RelayGapP.is_resp r1 = true ->
+    nth_error (RelayGapP.enq_trace cf RelayItems.init ls) j = Some (Some (r2, true)) -> RelayGapP.is_resp r2 = true ->
+    RelayItems.r_own r2 = RelayItems.r_own r1 -> RelayItems.fin_of (RelayItems.r_f r2) = false.
+Proof. exact RelayGapP.relay_no_gap_trace. Qed.
+
+(* NO FRAME AT ALL.  In runs in which no relay timer fires ([nofire]: no LFire label -- the ttl
+   outlasts the episode) the statement holds for EVERY response-direction frame, finishing or not
+   ([gap_free true]): after a response frame of a call was dropped, nothing of that response is
+   put on the caller's send queue any more.  (With timers firing a non-final frame can pass in the
+   window in which both timers of the call have fired but their goroutines have not run yet; the
+   call then ends with the timeout error frame / the caller's deadline -- C08_no_gap.) *)
+Theorem C08_no_frame_after_drop : forall cf ls st,
+  RelayItems.run_fresh cf RelayItems.init ls = Some st -> Forall RelayGapP.nofire ls ->
+  RelayGapP.gap_free true cf RelayItems.init [] ls.
+Proof. exact RelayGapP.relay_no_frame_after_drop. Qed.
+
+Theorem C08_no_frame_after_drop_trace : forall cf ls st,
+  RelayItems.run_fresh cf RelayItems.init ls = Some st -> Forall RelayGapP.nofire ls ->
+  forall i j r1 r2, (i < j)%nat ->
+    nth_error (RelayGapP.enq_trace cf RelayItems.init ls) i = Some (Some (r1, false)) -> RelayGapP.is_resp r1 = true ->
+    nth_error (RelayGapP.enq_trace cf RelayItems.init ls) j = Some (Some (r2, true)) -> RelayGapP.is_resp r2 = true ->
+    RelayItems.r_own r2 <> RelayItems.r_own r1.
+Proof. exact RelayGapP.relay_no_frame_after_drop_trace. Qed.
+
+(* a call the relay has failed: once the originating item of request (k,id) is a tombstone or
+   gone and no goroutine is still committed to an enqueue for it ([settled]), NOTHING is put on
+   the caller's send queue for that id any more, whatever arrives later (statement shared with C10) *)
+Theorem C08_failed_call_silent : forall cf ls0 st k id,
+  RelayItems.run_fresh cf RelayItems.init ls0 = Some st -> RelayWireP.settled st k id ->
+  forall ls st', RelayItems.run_fresh cf st ls = Some st' ->
+    RelayCalm.wire_of k id (RelayItems.sent st') = RelayCalm.wire_of k id (RelayItems.sent st).
+Proof. exact RelayWireP.relay_late_frames_discarded. Qed.
+
+Print Assumptions C08_gate_generated.
+Print Assumptions C08_gate_model.
+Print Assumptions C08_gate_model_fwd.
+Print Assumptions C08_fail_generated.
+Print Assumptions C08_no_gap.
+Print Assumptions C08_no_gap_trace.
+Print Assumptions C08_no_frame_after_drop.
+Print Assumptions C08_no_frame_after_drop_trace.
+Print Assumptions C08_failed_call_silent.
+
+(* non-vacuity: the schedule the harness forces (Model/RelayGap.v).  Call req 7 relayed; the
+   destination answers call res (more fragments; queue has room), call res continue (more;
+   queue FULL: dropped, relay-source-conn-slow), call res continue (last; queue has room again):
+   only the first frame reaches the caller; one Failed, one End, no live item, two tombstones *)
+Example C08_example_gap :
+  RelayGap.run_relaygap [30000; 3;  4; 1; 0; 1;  20; 1; 0; 0;  20; 0; 0; 1] = [1; 0; 0; 1; 1; 0; 2].
+Proof. vm_compute. reflexivity. Qed.
+
+(* the same run as a label list of the interleaving model: it is a fresh-id run, its 25th label
+   DROPS the second response frame (send-queue attempt without room), the later arrival of the
+   frame that ends the response produces no send-queue attempt at all (swallowed by the
+   tombstone), and the only frame ever enqueued for the caller's request is the first call res *)
+Definition ex_gap_frame (mt fl : Z) : RelayItems.frame :=
+  {| RelayItems.f_mt := mt; RelayItems.f_id := 1; RelayItems.f_flags := fl; RelayItems.f_code := 0; RelayItems.f_wf := true |}.
+Definition ex_gap_run : list RelayItems.label :=
+  [RelayItems.LArrive 0 RelayGap.gap_req RelayGap.gap_env] ++ repeat (RelayItems.LStep (RelayItems.TR 0) true) 10 ++
+  [RelayItems.LArrive 1 (ex_gap_frame 4 1) RelayGap.gap_env] ++ repeat (RelayItems.LStep (RelayItems.TR 1) true) 8 ++
+  [RelayItems.LArrive 1 (ex_gap_frame 20 1) RelayGap.gap_env] ++ repeat (RelayItems.LStep (RelayItems.TR 1) false) 14 ++
+  [RelayItems.LArrive 1 (ex_gap_frame 20 0) RelayGap.gap_env] ++ repeat (RelayItems.LStep (RelayItems.TR 1) true) 2.
+
+Example C08_example_gap_run :
+  let cf := RelayGap.gap_cf 30000 in
+  (exists st, RelayItems.run_fresh cf RelayItems.init ex_gap_run = Some st /\
+              RelayCalm.wire_of 0 7 (RelayItems.sent st) = [WireOk.Res true]) /\
+  Forall RelayGapP.nofire ex_gap_run /\
+  map (fun o => match o with Some (r, room) => Some (RelayItems.r_own r, RelayItems.fin_of (RelayItems.r_f r), room) | None => None end)
+      (filter (fun o => match o with Some _ => true | None => false end) (RelayGapP.enq_trace cf RelayItems.init ex_gap_run))
+  = [Some ((0, 0, 7), false, true);     (* the call req goes to the destination *)
+     Some ((1, 1, 1), false, true);     (* first response frame: enqueued for the caller *)
+     Some ((1, 1, 1), false, false)].   (* second: dropped; the last frame never gets that far *)
+Proof.
+  cbv zeta. split; [eexists; split; vm_compute; reflexivity|]. split; [|vm_compute; reflexivity].
+  unfold ex_gap_run. repeat (apply Forall_app; split); try (apply Forall_forall; intros l Hl; apply repeat_spec in Hl; subst l; exact I);
+    constructor; try exact I; constructor.
+Qed.
